@@ -226,35 +226,31 @@ func ReadEmitted(path string, fn func(raw json.RawMessage) error) (int, error) {
 		return 0, err
 	}
 	defer f.Close()
-	br := bufio.NewReaderSize(f, 1<<20)
+	// TLC workers append concurrently; a record and its newline may be separate writes, so two
+	// records can share a line. Records are decoded as a stream of JSON values, newlines ignored.
+	dec := json.NewDecoder(bufio.NewReaderSize(f, 1<<20))
 	n := 0
 	for {
-		line, err := br.ReadBytes('\n')
-		if len(bytes.TrimSpace(line)) > 0 {
-			line = bytes.TrimSpace(line)
-			var raw json.RawMessage
-			if line[0] == '"' {
-				var s string
-				if e := json.Unmarshal(line, &s); e != nil {
-					return n, fmt.Errorf("malformed emitted line %d: %v", n+1, e)
-				}
-				raw = json.RawMessage(s)
-			} else {
-				raw = json.RawMessage(append([]byte(nil), line...))
-			}
-			if !json.Valid(raw) {
-				return n, fmt.Errorf("malformed emitted record %d: %.120s", n+1, string(raw))
-			}
-			n++
-			if e := fn(raw); e != nil {
-				return n, e
-			}
-		}
-		if err == io.EOF {
+		var v json.RawMessage
+		if err := dec.Decode(&v); err == io.EOF {
 			break
+		} else if err != nil {
+			return n, fmt.Errorf("malformed emitted record %d: %v", n+1, err)
 		}
-		if err != nil {
-			return n, err
+		raw := v
+		if len(v) > 0 && v[0] == '"' {
+			var s string
+			if e := json.Unmarshal(v, &s); e != nil {
+				return n, fmt.Errorf("malformed emitted record %d: %v", n+1, e)
+			}
+			raw = json.RawMessage(s)
+		}
+		if !json.Valid(raw) {
+			return n, fmt.Errorf("malformed emitted record %d: %.120s", n+1, string(raw))
+		}
+		n++
+		if e := fn(raw); e != nil {
+			return n, e
 		}
 	}
 	return n, nil
